@@ -127,6 +127,21 @@ def handle : Handler
       let some aW := decAux aW | return bad
       let some lamW := lamW.toRat? | return bad
       return encRes (Fac.threePoints k tol x0 x1 x2 radius thS arcS thL arcL aW lamW)
+  | "f_three_dot", [k, tol, x0, x1, x2, radius, thS, arcS, thL, arcL, aW, lamW] =>
+      some <| Id.run do
+      let some k := decConsts k | return bad
+      let some tol := tol.toRat? | return bad
+      let some x0 := x0.toRats? | return bad
+      let some x1 := x1.toRats? | return bad
+      let some x2 := x2.toRats? | return bad
+      let some radius := radius.toRat? | return bad
+      let some thS := thS.toRat? | return bad
+      let some arcS := decArc arcS | return bad
+      let some thL := thL.toRat? | return bad
+      let some arcL := decArc arcL | return bad
+      let some aW := decAux aW | return bad
+      let some lamW := lamW.toRat? | return bad
+      return encRes (Fac.threePointsWith true k tol x0 x1 x2 radius thS arcS thL arcL aW lamW)
   | "f_three_data", [tol, x0, x1, x2] => some <| Id.run do
       let some tol := tol.toRat? | return bad
       let some x0 := x0.toRats? | return bad
